@@ -527,6 +527,8 @@ impl<'a> Work<'a> {
                 dependents.insert(id);
             }
         }
+        #[cfg(feature = "verif")]
+        let dependents = crate::verif::order(dependents);
         for id in dependents {
             let build = &self.graph.builds[id];
             if !self.recheck_ready(build) {
